@@ -149,8 +149,10 @@ def persist_version(fns):
     a.require("call:rewrite_atomic(current)", "(and {created} {synced} (not {dirty}) {dir})",
               "`current` is switched before the version file is written, fsynced and its directory entry fsynced")
     a.require("ret_ok", "{published}", "persist_version returns Ok without having switched `current`")
-    if not writes or not syncs or not dirs:
-        raise MirError("persist_version: no write / sync_all / fsync_directory event found (%d/%d/%d)" % (len(writes), len(syncs), len(dirs)))
+    # NOTE: a missing fsync / directory fsync is a *violation* (the requirement at the rename fails on every
+    # path), not an encoder problem; only the anchors (create, writes, rewrite_atomic) must be found.
+    if not writes:
+        raise MirError("persist_version: no write to the version file found")
     return [a]
 
 
@@ -164,8 +166,6 @@ def rewrite_atomic(fns):
     rename = one(calls(fn, r"(^|::)persist_temp_file$"), "persist_temp_file")
     rok, rerr, _ = ok_err(fn, rename, "persist_temp_file")
     opens = calls(fn, r"^File::open")
-    if not opens:
-        raise MirError("rewrite_atomic: no File::open after the rename")
     file2_roots = [b.dest for b in opens]
     syncs = calls(fn, r"^File::sync_all$")
     tmp_syncs = [b for b in syncs if any(same_class(uf, x, tmp) for x in arg_locals(b))]
@@ -173,9 +173,9 @@ def rewrite_atomic(fns):
     dirs = calls(fn, r"(^|::)fsync_directory$")
     writes = [b for b in blocks_using(fn, uf, tmp, PURE + r"|File::sync_all|persist_temp_file|NamedTempFile::new_in")]
     ok_ret, _ = ret_blocks(fn)
-    if not tmp_syncs or not cur_syncs or not dirs or not writes:
-        raise MirError("rewrite_atomic: missing events (tmp sync %d, file sync %d, dir sync %d, writes %d)" % (
-            len(tmp_syncs), len(cur_syncs), len(dirs), len(writes)))
+    # missing fsyncs are violations (requirements fail), not encoder problems; the writes are an anchor
+    if not writes:
+        raise MirError("rewrite_atomic: no write to the temp file found")
     a.var("tmp").var("dirty").var("tmp_synced").var("renamed").var("cur_synced").var("dir_synced")
     a.event("ok:new_in", [nok]).on("ok:new_in", "tmp", True)
     a.event("write(tmp)", [b.idx for b in writes]).on("write(tmp)", "dirty", True).on("write(tmp)", "tmp_synced", False)
@@ -201,8 +201,6 @@ def _writer_finish(fns, sel, title, some_re, need_dir=True):
     a = Automaton(fn, title)
     syncs = calls(fn, r"^File::sync_all$")
     dirs = calls(fn, r"(^|::)fsync_directory$")
-    if not syncs:
-        raise MirError("no File::sync_all in " + fn.name)
     ok_ret, _ = ret_blocks(fn)
     # returns that hand out a result (Ok(Some(..)) / Ok((meta, checksum))) as opposed to Ok(None)
     handing = set()
@@ -366,8 +364,8 @@ def move_tables(fns):
 
 def ingestion_finish(fns):
     out = []
-    for sel, nm in ((r"tree/ingest\.rs[^>]*>::finish\(_1: Ingestion", "Ingestion::finish"),
-                    (r"blob_tree/ingest\.rs[^>]*>::finish\(_1: BlobIngestion", "BlobIngestion::finish")):
+    for sel, nm in ((r"src/tree/ingest\.rs[^>]*>::finish\(_1: Ingestion", "Ingestion::finish"),
+                    (r"src/blob_tree/ingest\.rs[^>]*>::finish\(_1: BlobIngestion", "BlobIngestion::finish")):
         fn = mir.find(fns, sel)
         a = Automaton(fn, "O14.2 %s: flush under the flush lock, then one seqno for tables and version; Err => nothing published" % nm)
         lock = one(calls(fn, r"get_flush_lock$"), "get_flush_lock")
@@ -495,7 +493,7 @@ def merge_tables_hidden(fns):
 # ---------------------------------------------------------------------------------------------
 
 def recover_levels(fns):
-    fn = mir.find(fns, r"tree/mod\.rs[^>]*>::recover_levels\(")
+    fn = mir.find(fns, r"src/tree/mod\.rs[^>]*>::recover_levels\(")
     a = Automaton(fn, "O20.3 recover_levels: orphaned files are removed only after Version::from_recovery succeeded")
     fr = one(calls(fn, r"Version::from_recovery$"), "Version::from_recovery call")
     fok, ferr, _ = ok_err(fn, fr, "Version::from_recovery")
@@ -512,7 +510,93 @@ def recover_levels(fns):
     return [a]
 
 
+
+# ---------------------------------------------------------------------------------------------
+# C02 / C08 O2.6: reads use the super version the snapshot resolves to (and its blob files)
+# ---------------------------------------------------------------------------------------------
+
+def _pinning(fns, sel, title, consumers):
+    """consumers: [(callee regex, index of the version argument, index of the seqno argument or None)]"""
+    fn = mir.find(fns, sel)
+    uf = alias_classes(fn)
+    a = Automaton(fn, title)
+    seq_param = fn.debug.get("seqno")
+    if not seq_param or not RE_LOCAL.fullmatch(seq_param):
+        raise MirError("no `seqno` parameter in " + fn.name)
+    snaps = calls(fn, r"get_version_for_snapshot$")
+    if len(snaps) != 1:
+        raise MirError("expected one get_version_for_snapshot call in %s, found %d" % (fn.name, len(snaps)))
+    snap = snaps[0]
+    sargs = [x.strip() for x in mir.split_top(snap.args)]
+    snap_seq_ok = len(sargs) >= 2 and RE_LOCAL.search(sargs[-1]) and same_class(uf, RE_LOCAL.search(sargs[-1]).group(0), seq_param)
+    good, bad = [], []
+    found = 0
+    for cre, vi, si in consumers:
+        for b in calls(fn, cre):
+            found += 1
+            args = [x.strip() for x in mir.split_top(b.args)]
+            vloc = RE_LOCAL.search(args[vi])
+            ok = vloc is not None and same_class(uf, vloc.group(0), snap.dest)
+            if si is not None:
+                sloc = RE_LOCAL.search(args[si])
+                ok = ok and sloc is not None and same_class(uf, sloc.group(0), seq_param)
+            (good if ok else bad).append(b.idx)
+    if found == 0:
+        raise MirError("no version-consuming call found in " + fn.name)
+    a.var("snap")
+    a.event("call:get_version_for_snapshot(seqno)" if snap_seq_ok else "call:get_version_for_snapshot(OTHER SEQNO)", [snap.idx])
+    a.on("call:get_version_for_snapshot(seqno)", "snap", True)
+    a.event("call:read(pinned version)", good)
+    a.event("call:read(FOREIGN version)", bad)
+    a.require("call:read(pinned version)", "{snap}", "a read consumes a version before the snapshot was resolved with the caller's seqno")
+    a.require("call:read(FOREIGN version)", "false", "a read consumes a version / seqno that does not come from get_version_for_snapshot(seqno): the snapshot is not pinned")
+    return a
+
+
+def snapshot_pinning(fns):
+    out = []
+    out.append(_pinning(fns, r"src/tree/mod\.rs[^>]*>::get_internal_entry\(", "O2.6a Tree::get_internal_entry reads from the super version of its snapshot",
+                        [(r"get_internal_entry_from_version$", 0, 2)]))
+    out.append(_pinning(fns, r"src/tree/mod\.rs[^>]*>::create_range(::<[^(]*)?\(", "O2.6b Tree::create_range scans the super version of its snapshot",
+                        [(r"create_internal_range::<", 0, 2)]))
+    out.append(_pinning(fns, r"src/blob_tree/mod\.rs[^>]*>::get(::<[^(]*)?\(_1: &BlobTree", "O2.6c BlobTree::get looks up and resolves blob pointers in the super version of its snapshot",
+                        [(r"get_internal_entry_from_version$", 0, 2), (r"(^|::)resolve_value_handle$", 3, None)]))
+    # BlobTree::range: the scan and the Guard's version both come from the snapshot
+    fn = mir.find(fns, r"src/blob_tree/mod\.rs[^>]*>::range(::<[^(]*)?\(_1: &BlobTree")
+    a = _pinning(fns, r"src/blob_tree/mod\.rs[^>]*>::range(::<[^(]*)?\(_1: &BlobTree", "O2.6d BlobTree::range scans, and later resolves blob pointers in, the super version of its snapshot",
+                 [(r"create_internal_range::<", 0, 2)])
+    uf = alias_classes(fn)
+    snap = one(calls(fn, r"get_version_for_snapshot$"), "get_version_for_snapshot")
+    # the closure that builds `Guard { tree, version, kv }` captures the snapshot's super version
+    cap_ok = False
+    guard_closures = [cf for cf in fns if cf.closure_span() and not getattr(cf, "skip", False) and
+                      re.search(r"blob_tree/mod\.rs", cf.closure_span() or "") and
+                      any(re.search(r"= (blob_tree::)?Guard \{", st) for b in live_blocks(cf) for st in b.stmts)]
+    for b in live_blocks(fn):
+        for st in b.stmts:
+            m = re.match(r"^_\d+ = \{closure@([^}]+)\} \{(.*)\}$", st)
+            if m and any(cf.closure_span() == m.group(1) for cf in guard_closures):
+                ops = RE_LOCAL.findall(m.group(2))
+                if any(same_class(uf, o, snap.dest) for o in ops):
+                    cap_ok = True
+    if not guard_closures:
+        raise MirError("BlobTree::range: closure building the Guard not found")
+    for cf in guard_closures:
+        # inside the closure: Guard.version is a clone of the captured super version's `version` field
+        ok_in = False
+        for b in live_blocks(cf):
+            if b.kind == "call" and re.search(r"Version as Clone>::clone$", b.callee):
+                ok_in = True
+        if not ok_in:
+            raise MirError("BlobTree::range closure: Guard.version is not a clone of a captured version")
+    a.event("stmt:Guard built from FOREIGN version", [] if cap_ok else [snap.idx])
+    a.require("stmt:Guard built from FOREIGN version", "false", "the iterator guard resolves blob pointers in a version that is not the snapshot's")
+    out.append(a)
+    return out
+
+
 SPECS = {
+    "O2.6": [snapshot_pinning],
     "O5.1": [persist_version, rewrite_atomic],
     "O5.2": [table_writer_finish, blob_writer_finish],
     "O5.3": [standard_finish, relocating_finish, drop_tables],
